@@ -9,7 +9,9 @@ import dali.gear.general, dali.gear.led, dali.gear.emergency, dali.gear.incandes
 import dali.device.general, dali.device.pushbutton, dali.device.occupancy, dali.device.light  # noqa
 import contracts.frame as CF
 from specs import iec62386 as T
+from specs import events as EV
 from checks.c01 import USE
+import dali.device.general as DG, dali.device.occupancy as OCC, dali.device.light as LIGHT, dali.device.pushbutton as PB  # noqa
 
 GEAR_KINDS = {"short": (A.GearShort, "address", 63), "group": (A.GearGroup, "group", 15),
               "broadcast": (A.GearBroadcast, None, 0), "unaddressed": (A.GearBroadcastUnaddressed, None, 0)}
@@ -151,6 +153,68 @@ def units(tier):
                           detail="decodes to %s" % (type_of(r).__name__ if r is not None else None))
             U.append(Unit("C03/%s.%s" % (module.replace("dali.", ""), row["name"]), "C03", None, None, use=USE, width=72,
                           kind="custom", runner=runner, max_paths=100000))
+    U.extend(event_units())
+    return U
+
+
+# ----------------------------------------------------------------------------- event messages (Part 103 Table 3)
+EVENT_SCHEMES = {
+    "device": lambda ctx: {"short_address": ctx.int("short", 0, 63)},
+    "device/instance": lambda ctx: {"short_address": ctx.int("short", 0, 63), "instance_number": ctx.int("inum", 0, 31)},
+    "device group": lambda ctx: {"device_group": ctx.int("dgroup", 0, 31)},
+    "instance": lambda ctx: {"instance_number": ctx.int("inum", 0, 31)},
+    "instance group": lambda ctx: {"instance_group": ctx.int("igroup", 0, 31)},
+}
+
+
+def event_classes():
+    return [c for c in C.Command._commands if isinstance(c, type) and issubclass(c, DG._Event)
+            and c not in (DG._Event, DG.AmbiguousInstanceType)]
+
+
+def event_units():
+    U = []
+    for cls in event_classes():
+        schemes = list(EVENT_SCHEMES)
+
+        def runner(ctx, interp, fn, cls=cls, schemes=schemes):
+            i = ctx.choose_int(ctx.int("case", 0, len(schemes) - 1), "case")
+            scheme = schemes[i]
+            kw = EVENT_SCHEMES[scheme](ctx)
+            src = dict(kw)
+            # event information and instance type as the standard's parts give them (not read from the class)
+            if cls is DG.UnknownEvent:
+                itype = ctx.int("itype", 0, 31)
+                info = ctx.int("evdata", 0, 1023)
+                kw["instance_type"] = itype
+                kw["data"] = info
+            else:
+                itype = EV.INSTANCE_TYPE_OF_MODULE[cls.__module__]
+                if issubclass(cls, OCC.OccupancyEvent):
+                    mov, occ, rep, sm = ctx.bool("ev_mov"), ctx.bool("ev_occ"), ctx.bool("ev_rep"), ctx.bool("ev_sens")
+                    sensor = "movement" if sm else "presence"
+                    kw["data"] = OCC.OccupancyEvent.EventData(movement=mov, occupied=occ, repeat=rep, sensor_type=sensor)
+                    info = EV.occupancy_info(mov, occ, rep, sm)
+                elif issubclass(cls, LIGHT.LightEvent):
+                    info = ctx.int("evdata", 0, 1023)
+                    kw["data"] = info
+                else:
+                    info = EV.PUSHBUTTON_CODE[cls.__name__]
+            want = EV.encode_event(scheme, info, instance_type=itype, **src)
+            label = scheme.replace(" ", "-").replace("/", "-")
+            try:
+                obj = interp.call(cls, (), kw)
+            except RaiseEx as e:
+                ctx.fail(label + "/constructs:%s" % e.cls.__name__, detail="raised %s at %s" % (e.cls.__name__, e.where))
+                return
+            fr = interp.get_attr(obj, "frame")
+            ctx.cover()
+            ctx.prove(label + "/frame-width", interp.truth(interp.eq(len_of(interp, fr), 24)))
+            ctx.prove(label + "/frame-bits-as-in-the-standard",
+                      interp.truth(interp.eq(interp.get_attr(fr, "as_integer"), want)),
+                      detail="%s: emitted event frame differs from IEC 62386-103 Table 3 (%s scheme)" % (cls.__name__, scheme))
+        U.append(Unit("C03/event/%s.%s" % (cls.__module__.replace("dali.", ""), cls.__name__), "C03", None, None, use=USE,
+                      width=72, kind="custom", runner=runner, max_paths=100000))
     return U
 
 
@@ -224,7 +288,9 @@ def unverified_list():
 META = {
     "level": "proof",
     "bounds": {"commands": "every row of specs/iec62386.py that is not marked unverified", "arguments": "every destination kind "
-               "and instance kind with symbolic numbers, every parameter value (symbolic)"},
+               "and instance kind with symbolic numbers, every parameter value (symbolic)",
+               "events": "every implemented event class x the five source schemes of Part 103 Table 3 with symbolic "
+                         "source fields and event information (conversely, table frame -> event: property C12)"},
     "assumptions": [
         "the oracle is specs/iec62386.py, transcribed from the standard from memory in an offline sandbox (trusted); rows / "
         "flags marked unverified are excluded: " + "; ".join(unverified_list()),
